@@ -176,12 +176,14 @@ def mutators(ctx) -> list[FuncInfo]:
     return out
 
 
-def discharged(rej, used: dict) -> str | None:
+def discharged(rej, used: dict, site=None) -> str | None:
     chain = ", ".join(rej.via)
     for i, ent in enumerate(INFEASIBLE):
         if re.search(ent["guard"], rej.key) and (ent["via"] is None or re.search(ent["via"], chain)):
             used[i] = used.get(i, 0) + 1
             used.setdefault(("by", i), set()).update(rej.via)
+            if site is not None:
+                used.setdefault(("sites", i), []).append(site)
             return ent["why"]
     return None
 
@@ -431,7 +433,7 @@ def analyse_mutator(ef: Effects, f: FuncInfo, used: dict, own: frozenset = froze
             ent = by_site.setdefault((id(c.node), "late"), [m, c, {}, 0])
             for r in inner:
                 r2 = type(r)(r.origin, r.cond, r.exc, r.node, (f.key, g.key, *r.via))
-                why = discharged(r2, used) or prevalidated(ef, f, c, r2)
+                why = discharged(r2, used, (f.key, c.node)) or prevalidated(ef, f, c, r2)
                 if why is None:
                     ent[2].setdefault(r.key, r)
                 else:
@@ -440,7 +442,7 @@ def analyse_mutator(ef: Effects, f: FuncInfo, used: dict, own: frozenset = froze
         ent = by_site.setdefault(id(c.node), [m, c, {}, 0])
         for r in c.rejs:
             r2 = type(r)(r.origin, r.cond, r.exc, r.node, (f.key, *r.via))
-            why = discharged(r2, used) or prevalidated(ef, f, c, r)
+            why = discharged(r2, used, (f.key, c.node)) or prevalidated(ef, f, c, r)
             if why is None:
                 ent[2].setdefault(r.key, r)
             else:
@@ -459,9 +461,32 @@ def required_validations(ef: Effects, muts, used: dict, i: int, ent: dict):
             # a witness that is a shape of the mutator itself (e.g. the order in which a loop visits its indices), not one of its rejections
             missing = [f for f in holders if not need(f)]
         else:
-            missing = [f for f in holders if not any(
-                (need(r.cond + " ## " + _expanded_guard(f, r.node)) if callable(need) else re.search(need, r.cond + " ## " + _expanded_guard(f, r.node)))
-                for r in ef.summary(f).rejs.values() if r.origin == f.key)]
+            def _witnesses(f):
+                return [r for r in ef.summary(f).rejs.values() if r.origin == f.key and (
+                    need(r.cond + " ## " + _expanded_guard(f, r.node)) if callable(need) else re.search(need, r.cond + " ## " + _expanded_guard(f, r.node)))]
+
+            def _covers(f, ws):
+                """Every site of f at which the entry was used comes after one of the witnesses: the top-level statement of the function
+                that holds the witness' rejection stands before (or is) the one that holds the site - a fast path that writes and
+                returns before the validation is not covered by it."""
+                sites = [nd for k_, nd in used.get(("sites", i), ()) if k_ == f.key]
+                body = list(getattr(f.node, "body", []))
+
+                def top(nd):
+                    q = nd
+                    while q is not None and getattr(q, "_parent", None) is not f.node:
+                        q = getattr(q, "_parent", None)
+                    return next((j_ for j_, st in enumerate(body) if st is q), None)
+
+                wpos = [top(r.node) for r in ws]
+                wpos = [x for x in wpos if x is not None]
+                for nd in sites:
+                    sp = top(nd)
+                    if sp is not None and wpos and not any(w <= sp for w in wpos):
+                        return False
+                return True
+
+            missing = [f for f in holders if not _witnesses(f) or not _covers(f, _witnesses(f))]
         text = (need.__doc__ or need.__name__).split(":")[0][:90] if callable(need) else need
         out.append((text, holders, missing))
     return out
